@@ -267,8 +267,8 @@ package core
 //@ func (*Location).RemRule
 //@   assert[C10.enabled_gate_remrule] at "loc.state.Rem(ctx, id)": eok
 //@ func (*Location).EnableRule
-//@   assert[C10.enabled_gate_enablerule_rem] at "RemProp(ctx, loc.state, id, \"disabled\")": eok
-//@   assert[C10.enabled_gate_enablerule_set] at "SetProp(ctx, loc.state, id, \"disabled\", true)": eok
+//@   assert[C10.enabled_gate_enablerule_rem] at "RemProp(ctx, loc.state, id,": eok
+//@   assert[C10.enabled_gate_enablerule_set] at "SetProp(ctx, loc.state, id,": eok
 //@ func (*Location).addFact
 //@   assert[C10.enabled_gate_addfact] at "loc.state.Add(ctx, id, fact)": eok
 //@ func (*Location).RemFact
